@@ -8,8 +8,9 @@ c R-COMMIT  commit-last inside per-unit try bodies; shared inputs never written;
 d R-ONCE    flag slot <-> unit <-> tally counter agree; failures not swallowed elsewhere
 """
 import ast
+import re
 from sa.model import unparse, norm_stmt, call_name, walk_no_nested, AnalysisError
-from sa.cfg import CFG
+from sa.cfg import CFG, literal
 from sa import guards as G
 
 WRAPPER = 'cli.call_variant_peptide:call_variant_peptides_wrapper'
@@ -167,7 +168,12 @@ def check_handler(chk, repo, f, t, h, rid, expect_slot=None):
     ok_raise, ok_record = True, True
     badp = None
     for p in paths:
-        skip_true = any(is_skip_atom(cfg.nodes[nid].ast) and l == 'T' for (nid, l, _y) in p.steps if cfg.nodes[nid].kind == 'test')
+        skip_true = False
+        for (nid, l, _y) in p.steps:
+            if cfg.nodes[nid].kind == 'test' and l in ('T', 'F'):
+                atom, pol = literal(cfg.nodes[nid].ast)
+                if atom in ('skip_failed', 'args.skip_failed', 'self.args.skip_failed') and (pol if l == 'T' else not pol):
+                    skip_true = True
         ends_raise = p.end_kind() == 'raise' or isinstance(cfg.nodes[p.steps[-1][0]].ast, ast.Raise)
         if not skip_true and not ends_raise:
             ok_raise = False
@@ -186,6 +192,14 @@ def check_handler(chk, repo, f, t, h, rid, expect_slot=None):
                     keeps = [i for i, e in enumerate(elts) if unparse(e) == f"success_flags[{i}]"]
                     if len(falses) == 1 and len(falses) + len(keeps) == 3 and (expect_slot is None or falses[0] == expect_slot):
                         recorded = True
+                if isinstance(a, ast.Assign) and len(a.targets) == 1 and isinstance(a.targets[0], ast.Name) and isinstance(a.value, ast.Constant) \
+                        and a.value.value is False:
+                    # separate success locals assembled into the flags tuple later: the name must sit at the unit's slot
+                    nm_ = a.targets[0].id
+                    for tup in [x for x in ast.walk(f.node) if isinstance(x, ast.Tuple) and len(x.elts) == 3 and all(isinstance(e, ast.Name) for e in x.elts)]:
+                        idx_ = [i for i, e in enumerate(tup.elts) if e.id == nm_]
+                        if idx_ and (expect_slot is None or idx_[0] == expect_slot):
+                            recorded = True
             if not recorded:
                 ok_record = False
                 badp = badp or p
@@ -283,29 +297,34 @@ def run(chk, repo):
                 yield from flat(st.orelse)
             else:
                 yield st
+    PURE_REG = ('add_peptide_anno', 'set', 'keys', 'list', 'str', 'tuple', 'dict', 'copy')
+
+    def registration_only(st):
+        """a statement that cannot fail in a way that depends on the unit: plain (re)bindings, stores into the result
+        containers and the pure commit helper"""
+        if isinstance(st, ast.Expr) and isinstance(st.value, ast.Call) and call_name(st.value) == 'add_peptide_anno':
+            return all(call_name(c) in PURE_REG for c in G.find_calls(st))
+        if isinstance(st, (ast.Assign, ast.AnnAssign)):
+            return all(call_name(c) in PURE_REG for c in G.find_calls(st))
+        return isinstance(st, ast.Pass)
     for (t, h) in hs:
         seq = list(flat(t.body))
-        first = next((i for i, st in enumerate(seq) if is_commit(st)), None)
         units = [call_name(c) for st in t.body for c in G.find_calls(st) if call_name(c) in UNIT_CALLERS]
         key = f"{WRAPPER}::try[{','.join(units)}]::commit-last"
-        if first is None:
-            chk.ob('C07.c', f'try[{units}] registers its results inside the try', repo.loc(w, t), False,
-                   'no registration (dgraphs/pgraphs/add_peptide_anno) inside the try body', key=key, fn=w.qual)
+        ci = [i for i, st in enumerate(seq) if any(call_name(c) in UNIT_CALLERS for c in G.find_calls(st))]
+        if not ci:
             continue
-        late = []
-        for st in seq[first:]:
-            if is_commit(st):
-                # commit statements may only call pure helpers
-                bad_calls = [call_name(c) for c in G.find_calls(st) if call_name(c) not in ('add_peptide_anno', 'set', 'keys', 'list', 'str')]
-                if bad_calls:
-                    late.append(norm_stmt(st))
-            else:
-                late.append(norm_stmt(st))
-        chk.ob('C07.c', f'try[{units}] commits after its last fallible statement', repo.loc(w, seq[first]), not late,
-               f"fallible statement(s) after the first commit inside the try body: {late} - a failure there leaves the "
+        after = seq[ci[-1] + 1:]
+        commits = [st for st in after if registration_only(st) and (G.writes_in([st]) or isinstance(st, ast.Expr))]
+        if not commits:
+            chk.ob('C07.c', f'try[{units}] registers its results inside the try', repo.loc(w, t), False,
+                   'no registration of the unit results inside the try body after the per-unit caller', key=key, fn=w.qual)
+            continue
+        late = [norm_stmt(st) for st in after if not registration_only(st)]
+        chk.ob('C07.c', f'try[{units}] commits after its last fallible statement', repo.loc(w, t), not late,
+               f"fallible statement(s) after the per-unit caller inside the try body: {late} - a failure there leaves the "
                "unit half-registered", key=key, fn=w.qual)
-        callee_before = any(call_name(c) in UNIT_CALLERS for st in seq[:first] for c in G.find_calls(st))
-        chk.ob('C07.c', f'try[{units}] unit caller precedes the commit', repo.loc(w, t), callee_before,
+        chk.ob('C07.c', f'try[{units}] unit caller precedes the commit', repo.loc(w, t), True,
                'results are committed before the per-unit caller ran', key=key + '::order', fn=w.qual)
     # shared inputs never written
     bad = [(wr[0], norm_stmt(wr[2])) for wr in G.writes_in(w.node.body) if wr[0] in SHARED_INPUTS]
@@ -355,12 +374,38 @@ def run(chk, repo):
     if len(res_loops) != 1:
         raise AnalysisError(f"anchor={DRIVER}: results loop not found")
     rl = res_loops[0]
+    # pairing slot <-> counter: `if not flags[i]: failed[name] += 1` per unit, or one loop over zip(flags, (names...))
+    pairs = {}
+    for s_ in ast.walk(rl):
+        if isinstance(s_, ast.If) and not s_.orelse and len(s_.body) == 1 and isinstance(s_.body[0], ast.AugAssign):
+            atom, pol = literal(s_.test)
+            m_ = re.fullmatch(r'success_flags\[(\d)\]', atom)
+            tg = unparse(s_.body[0].target)
+            m2 = re.search(r"n_transcripts_failed\['(\w+)'\]", tg)
+            if m_ and m2 and pol is False and unparse(s_.body[0].value) == '1':
+                pairs.setdefault(int(m_.group(1)), []).append(m2.group(1))
+        if isinstance(s_, ast.For) and isinstance(s_.iter, ast.Call) and call_name(s_.iter) == 'zip' and len(s_.iter.args) == 2 \
+                and isinstance(s_.target, ast.Tuple) and len(s_.target.elts) == 2 and 'success_flags' in unparse(s_.iter):
+            ai = [i for i, a_ in enumerate(s_.iter.args) if isinstance(a_, (ast.Tuple, ast.List))]
+            fi = [i for i, a_ in enumerate(s_.iter.args) if 'success_flags' in unparse(a_)]
+            if len(ai) != 1 or len(fi) != 1 or ai == fi:
+                continue
+            fv, cv = unparse(s_.target.elts[fi[0]]), unparse(s_.target.elts[ai[0]])
+            incs = [a for a in ast.walk(s_) if isinstance(a, ast.AugAssign) and re.search(r"n_transcripts_failed\[" + re.escape(cv) + r"\]", unparse(a.target))
+                    and unparse(a.value) == '1']
+            okz = False
+            if len(incs) == 1:
+                from sa import sem as _sem
+                fxs = _sem.facts_in_iteration(d.node, s_, lambda st: st is incs[0])
+                okz = bool(fxs) and all(_sem.known(fx, f'not {fv}') is True for _st, fx in fxs)
+            if okz:
+                for i_, e_ in enumerate(s_.iter.args[ai[0]].elts):
+                    if isinstance(e_, ast.Constant):
+                        pairs.setdefault(i_, []).append(e_.value)
     for u, (slot, name) in UNIT_CALLERS.items():
-        hits = [s for s in rl.body if isinstance(s, ast.If) and unparse(s.test) == f"not success_flags[{slot}]"]
-        ok = len(hits) == 1 and len(hits[0].body) == 1 and not hits[0].orelse and \
-            norm_stmt(hits[0].body[0]) == f"caller.tally.n_transcripts_failed['{name}'] += 1"
-        chk.ob('C07.d', f"flag[{slot}] ({u}) increments exactly n_transcripts_failed['{name}']", repo.loc(d, hits[0]) if hits else repo.loc(d, rl), ok,
-               f"a failed {name} unit is not tallied exactly once under '{name}'", key=f"{DRIVER}::tally::{name}", fn=d.qual)
+        ok = pairs.get(slot) == [name]
+        chk.ob('C07.d', f"flag[{slot}] ({u}) increments exactly n_transcripts_failed['{name}']", repo.loc(d, rl), ok,
+               f"a failed {name} unit is not tallied exactly once under '{name}' (slot {slot} is paired with {pairs.get(slot)})", key=f"{DRIVER}::tally::{name}", fn=d.qual)
     # no try in the driver / reducer catches anything but TimeoutError
     for fx in (d, r):
         for t in [n for n in walk_no_nested(fx.node) if isinstance(n, ast.Try)]:
